@@ -146,7 +146,7 @@ func init() {
 		ID: "C12", Level: "exploration", Run: runC12,
 		Rule: "per run 2-6 single-leaf transactions over the types container of vsim: one leaf per YANG built-in type (int8..int64, uint8..uint64 incl. values above 2^63, decimal64 with fraction-digits 1/2/18 incl. negative and fractional, boolean, empty, enumeration incl. a name with a space, identityref from two modules, union of uint8|enum|string, string with separators, leaf-lists of string/uint32/enum) x boundary and interior values x input form (typed value, string, JSON, JSON_IETF). After each accepted transaction the value at the direct device (proto view), in the intended store, and returned by GetData in STRING/PROTO/JSON/JSON_IETF must denote the supplied datum in the harness's abstract value domain; a verbatim re-submission must send nothing. Every step is non-trivial; distinct = (leaf, value, form).",
 		Real: append(append([]string{}, realCore...), "pkg/utils converter.go/value.go/leaf_convert.go, pkg/datastore/data_rpc.go validateUpdate"), Stub: stubCore,
-		Assume:         []string{"only the compositions the running system performs are checked (client -> datastore -> store -> device proto view -> GetData), not the cross product of pure converters; XML text from a device is not covered"},
+		Assume:       []string{"only the compositions the running system performs are checked (client -> datastore -> store -> device proto view -> GetData), not the cross product of pure converters; XML text from a device is not covered"},
 		QuickSeconds: 30, ThoroughSeconds: 420,
 	})
 }
